@@ -28,7 +28,8 @@ NA = {
  "C46": "pattern specificity over runtime strings and table sets",
 }
 # short per-property claim text for claimed checks: (decides, not decided)
-CLAIM = json.load(open("claims.json"))
+import glob
+CLAIM = {os.path.basename(f)[:-5]: json.load(open(f)) for f in glob.glob("claims.d/*.json")}
 
 checks, na = [], []
 for p in props:
